@@ -239,6 +239,24 @@ def main(tier: str) -> int:
                         got_out = "exc: " + repr(ex)
                     if got_out != expected_out:
                         run.violation(f"headers-tool|output-differs|{how}", {"kind": "script-output", **ctx, "want_out": expected_out, "got_out": got_out})
+            # the command's own argument parsing (its defaults: no depth given = the whole outline), in process, on a saved file
+            if outline == 0 or rng.random() < 0.2:
+                from odfdo.scripts.headers import configure_parser, headers
+
+                with tempfile.TemporaryDirectory(prefix="verif_c20p_") as d:
+                    p = Path(d) / "doc.odt"
+                    doc.save(p)
+                    args = configure_parser().parse_args(([] if outline == 0 else ["--depth", str(outline)]) + [str(p)])
+                    out = io.StringIO()
+                    try:
+                        with contextlib.redirect_stdout(out):
+                            headers(args)
+                        lines1 = [ln for ln in out.getvalue().split("\n") if _re0.match(r"^\d+(\.\d+)*\. ", ln)]
+                    except BaseException as ex:  # noqa: BLE001
+                        lines1 = ["exc: " + repr(ex)]
+                    run.klass("headers-parser", outline)
+                    if [ln.split(" ", 1)[0] for ln in lines1] != [w["text"].split(" ", 1)[0] for w in want]:
+                        run.violation("headers-tool|defaults-differ", {"kind": "script", **ctx, "script": lines1})
         # ... and the command itself on a sample
         if script_budget > 0 and levels:
             script_budget -= 1
@@ -246,7 +264,7 @@ def main(tier: str) -> int:
                 p = Path(d) / "doc.odt"
                 doc.save(p)
                 depth = 999 if outline == 0 else outline
-                r = subprocess.run(["/venv/bin/python", "-m", "odfdo.scripts.headers", "-d", str(depth), str(p)], capture_output=True, text=True,
+                r = subprocess.run(["/venv/bin/python", "-m", "odfdo.scripts.headers"] + (["-d", str(depth)] if outline else []) + [str(p)], capture_output=True, text=True,
                                    env={"PYTHONPATH": str(SRC), "PATH": "/usr/bin:/bin"})
                 import re as _re
 
@@ -256,6 +274,34 @@ def main(tier: str) -> int:
                 run.klass("headers-script", outline)
                 if r.returncode != 0 or nums != wnums:
                     run.violation("headers-script|outline-differs", {"kind": "script", **ctx, "script": lines, "rc": r.returncode, "stderr": r.stderr[-300:]})
+        # the content part replaced as a whole (bytes of another document) after the body was read: the table of contents
+        # found in the document now is the new one, and filling it lists the new headings - judged on the saved file
+        if rng.random() < 0.3 and len(recs) > 1:
+            rec2 = recs[(ri + 1) % len(recs)]
+            levels2 = rec2["heads"]
+            spec2 = rec2["toc"][str(outline)] if isinstance(rec2["toc"], dict) else rec2["toc"][outline]
+            try:
+                from odfdo import Document as _Doc
+
+                doc2, toc2, _h2 = make_doc(rng, levels2, where)
+                toc2.outline_level = outline
+                data = doc2.get_part("content.xml").serialize()
+                _ = doc.body
+                how = rng.choice(["content", "content.xml"])
+                doc.set_part(how, data)
+                t = doc.body.get_element("descendant::text:table-of-content")
+                t.fill()
+                sbuf = io.BytesIO()
+                doc.save(sbuf)
+                sbuf.seek(0)
+                o4 = observe(_Doc(sbuf))
+                want4, n4 = expected_entries(spec2, o4["heads"], outline)
+                got4 = [{"style": e["style"], "text": e["text"]} for e in o4["entries"]]
+                run.klass("content-replaced", how)
+                if n4 != len(spec2) or got4 != want4:
+                    run.violation("entries|after-content-replaced", {"kind": "replaced", "levels": levels2, "outline": outline, "via": how, "want": want4, "got": got4})
+            except Exception as ex:  # noqa: BLE001
+                run.violation("exc|after-content-replaced", {"kind": "exc", "levels": levels2, "outline": outline, "got": repr(ex)})
     run.validated(len(recs))
     run.sample({"binding": "A:toc", "heads": recs[len(recs) // 2]["heads"], "expected": recs[len(recs) // 2]["toc"]})
     return run.finish()
